@@ -223,6 +223,19 @@ func ZZHarnessConsensus() {
 	if pre != nil {
 		preCopy = *pre
 	}
+	// an aggregated message is checked against the recorded state of EVERY signer: arbitrary prior state of the
+	// last signer too
+	var pre2 *SignerState
+	var pre2Copy SignerState
+	if nsig >= 2 && !wide && zzNondetBool("haveState2") {
+		pre2 = &SignerState{
+			Slot:          phase0.Slot(zzNondetU64("st2Slot")),
+			Round:         specqbft.Round(zzNondetU64("st2Round")),
+			MessageCounts: MessageCounts{Decided: int(zzNondetRange("c2Decided", 0, 9))},
+		}
+		pre2Copy = *pre2
+		cs.Signers.Set(signers[nsig-1], pre2)
+	}
 	sigOK := zzNondetBool("sigOK")
 	verifier := func() error {
 		if sigOK {
@@ -336,6 +349,18 @@ func ZZHarnessConsensus() {
 				}
 			}
 		}
+	}
+	if pre2 != nil && signers[nsig-1] != signers[0] {
+		zzReach("last-signer-had-state")
+		zzAssert(h >= uint64(pre2Copy.Slot), "no-slot-regression-for-any-signer-of-an-aggregate")
+		if h == uint64(pre2Copy.Slot) {
+			zzAssert(r >= uint64(pre2Copy.Round), "no-round-regression-for-any-signer-of-an-aggregate")
+			if r == uint64(pre2Copy.Round) && t == uint64(specqbft.CommitMsgType) {
+				zzAssert(pre2Copy.MessageCounts.Decided < n*((n-1)/3+1), "decided-limit-for-any-signer-of-an-aggregate")
+			}
+		}
+		st2 := cs.GetSignerState(signers[nsig-1])
+		zzAssert(st2 != nil && uint64(st2.Slot) >= uint64(pre2Copy.Slot), "post-state-slot-never-decreases-for-any-signer")
 	}
 	// the recorded state never moves backwards: this is what lets one step from an ARBITRARY prior state stand
 	// for "after every prefix of previously accepted messages"
